@@ -82,7 +82,14 @@ func FindMajority(quorum, threshold uint, set ...uint) int {
 		return set[i] > set[j]
 	})
 
-	if quorum-sum+set[0] < th {
+	// NOTE if sum is over quorum, there are no missing votes; 'quorum - sum'
+	// must not be wrapped around.
+	var missing uint
+	if quorum > sum {
+		missing = quorum - sum
+	}
+
+	if missing+set[0] < th {
 		return -2
 	}
 
@@ -114,7 +121,12 @@ func FindVoteResult(quorum, threshold uint, s []string) (result VoteResult, key 
 
 	for j := range count {
 		c := count[j]
-		keys[c] = j
+
+		// NOTE if keys have same count, always the lowest key is selected instead
+		// of depending on the map order.
+		if k, found := keys[c]; !found || j < k {
+			keys[c] = j
+		}
 		set[i] = c
 		i++
 	}
